@@ -239,7 +239,10 @@ def part2(rep, prog, ix):
                 rep.check(okd, 'R08.5', '%s|name-data' % region, 'friendly-name request answered from %s / size %s' % (short(data), short(size)), function='parseQueryLargeTlv', file=fnf,
                           sample={'type': 'friendly name', 'data': short(data), 'size': short(size)} if len(rep.samples) < 20 else None)
             elif tyc == 0x13:
-                okd = data[0] == 'ptr' and data[1].startswith('heap:parseQueryLargeTlv') and st.dom(size).hi <= 64
+                # a scratch block of this request that the platform's hardware-id getter filled (wherever it was allocated:
+                # in the handler or in a helper), at most 64 bytes of it
+                filled = set(e[3] for e, _ in effects(st, 'get') if e[1] == 'hw_id' and len(e) >= 6 and st.canon(e[4]) == ZERO and e[5] == 64)
+                okd = data[0] == 'ptr' and data[2] == ZERO and data[1].startswith('heap:') and data[1] in filled and st.dom(size).hi <= 64
                 if okd:
                     # the scratch block holds the platform's hardware id bytes
                     o = st.objs.get(data[1])
